@@ -281,12 +281,31 @@ pub fn grammar_terms(d: usize, big: bool) -> Vec<T> {
         out.push(list(vec![t.clone()]));
         out.push(list_t(vec![t.clone()], v("$T")));
     }
-    let pick: Vec<T> = inner.iter().take(if big { 8 } else { 5 }).cloned().collect();
+    // the pairs: a few constants and variables, and one term of each structured kind
+    // (so that a list or complex term is also the *last* of several elements / arguments)
+    let mut pick: Vec<T> = inner.iter().take(if big { 6 } else { 3 }).cloned().collect();
+    pick.extend(vec![x(), list(vec![]), list(vec![atom("b")]), cplx("f", vec![atom("b")]), list(vec![atom("b"), atom("c")])]);
     for t in &pick {
         for u in &pick {
             out.push(cplx("g", vec![t.clone(), u.clone()]));
             out.push(list(vec![t.clone(), u.clone()]));
             out.push(list_t(vec![t.clone(), u.clone()], v("$T")));
+        }
+    }
+    // same-kind and mixed nesting three levels deep with a sibling after the inner term
+    if d >= 2 {
+        let leafs = vec![atom("a"), cplx("h", vec![atom("a")]), list(vec![atom("a")])];
+        for l1 in &leafs {
+            for l2 in &leafs {
+                let inner_c = cplx("g", vec![l1.clone(), l2.clone()]);
+                let inner_l = list(vec![l1.clone(), l2.clone()]);
+                for inn in [&inner_c, &inner_l] {
+                    out.push(cplx("f", vec![inn.clone()]));
+                    out.push(cplx("f", vec![inn.clone(), atom("z")]));
+                    out.push(list(vec![inn.clone(), atom("z")]));
+                    out.push(list_t(vec![inn.clone()], v("$T")));
+                }
+            }
         }
     }
     out.push(cplx("h3", vec![atom("a"), x(), T::Int(1)]));
@@ -767,6 +786,10 @@ fn parse_in_contexts(text: &str) -> Vec<(&'static str, Result<Unifiable, String>
 pub fn c20_texts(big: bool) -> Vec<String> {
     let mut v: Vec<String> = grammar_terms(if big { 2 } else { 1 }, big).iter().map(|t| t.text()).collect();
     for s in ["-3", "+7", "-2.5", "+0.5", "\\,", ".", "?", "!", "-", "--", "3.", ".5", "1.2.3", "$", "$1", "$x", "_", "a-b", "a_b", "007", "1e5", "-a", "f()", "add(1, 2)", "join(a, b)", "1 + 2", "$X * 3", "\"quoted text\"", "\"a, b\""] {
+        v.push(s.to_string());
+    }
+    // punctuation and quoted atoms one level down: in a context they sit at depth two
+    for s in ["g(\\,)", "[a, \\,]", "g(\\|)", "g(a, \\,, b)", "[\\,, a]", "name(\"John Smith\")", "[\"John Smith\", b]", "f(\"a, b\", c)", "[f(\"x y\")]", "g([\"p, q\"], z)", "f(g(h(a), b))", "f(g(h(a), b), c)", "[[a, [b]], c]", "f([g(a), b], [c])"] {
         v.push(s.to_string());
     }
     v.dedup();
